@@ -760,10 +760,19 @@ def k4(ck: Check) -> None:
     loop = next((s for s in avoid_body if isinstance(s, ast.For)), None)
     if loop is None:
         raise AnalysisError("anchor vanished: candidate loop of the avoid branch")
-    cb = None
-    for s in avoid_body:
-        if isinstance(s, ast.Assign) and isinstance(s.value, ast.Call) and callee_name(s.value) == "state_list_to_bdd":
-            cb = s.targets[0].id
+    def _cand_bdd(body_x):
+        """the BDD of the candidate list used by this branch: built inside it, or once in front of the split"""
+        for s_ in body_x:
+            if isinstance(s_, ast.Assign) and isinstance(s_.value, ast.Call) and callee_name(s_.value) == "state_list_to_bdd":
+                return s_.targets[0].id
+        used = {y.id for s_ in body_x for y in ast.walk(s_) if isinstance(y, ast.Name)}
+        for s_ in f.node.body[:f.node.body.index(br)]:
+            if isinstance(s_, ast.Assign) and isinstance(s_.value, ast.Call) and callee_name(s_.value) == "state_list_to_bdd" \
+                    and isinstance(s_.targets[0], ast.Name) and s_.targets[0].id in used and len(s_.value.args) == 2 \
+                    and text(s_.value.args[1]) in f.params():
+                return s_.targets[0].id
+        return None
+    cb = _cand_bdd(avoid_body)
     probs = []
     sub = [s for s in loop.body if isinstance(s, ast.Assign) and isinstance(s.targets[0], ast.Name) and s.targets[0].id == cb
            and isinstance(s.value, ast.Call) and callee_name(s.value) == "l_and_not"]
@@ -861,10 +870,7 @@ def k4(ck: Check) -> None:
     if n_steps < 2:
         raise AnalysisError("anchor vanished: state updates of the simulation walks")
     # ---- no-avoid branch
-    cb2 = None
-    for s in noavoid_body:
-        if isinstance(s, ast.Assign) and isinstance(s.value, ast.Call) and callee_name(s.value) == "state_list_to_bdd":
-            cb2 = s.targets[0].id
+    cb2 = _cand_bdd(noavoid_body)
     outer = next((s for s in noavoid_body if isinstance(s, ast.For)), None)
     probs = []
     if outer is None or cb2 is None:
@@ -943,6 +949,11 @@ def k5(ck: Check) -> None:
                 ok = par is None or is_none(par) or (isinstance(par, ast.Constant) and par.value == "negative")
                 probs = [] if ok else [f"feedback vertex set computed with parity={text(par)}: negative cycles may stay "
                                        f"uncovered, so complex attractors can have no candidate"]
+                sub = call_arg(n, 2, "subgraph")
+                if sub is not None and not is_none(sub):
+                    probs.append(f"the feedback vertex set is searched inside `{text(sub)[:40]}` only: a cycle through a variable left "
+                                 f"out (a negative self-loop is a cycle of length one) stays uncovered, and the attractors that "
+                                 f"oscillate on it get no candidate")
                 net = n.args[0] if n.args else None
                 if fm.f.name == "node_percolated_nfvs" and isinstance(net, ast.Name):
                     sd = fm.single_def(net.id, fm.cfgn(n))
